@@ -164,6 +164,16 @@ type hcase struct {
 	// SubscribeWithReplay is still replaying): an original event n gets the follow-ups
 	// 1000+2n and 1001+2n, the first of which gets one more, 2000+2n
 	HandlerPub bool `json:"handler_publishes,omitempty"`
+	// SubCancel: the first SubscribeWithReplay of the history is given a context that its
+	// own handler cancels when it has received SubCancel events (a consumer that gives up
+	// part-way through the replay). The call may fail or not; what was not delivered then
+	// is delivered by a later run - nothing is lost, and nothing is skipped because the
+	// replay ended early without saying so
+	SubCancel int `json:"subscribe_context_cancelled_at,omitempty"`
+	// EarlyUnsub: every bus has two plain handlers of the subscribed type registered before
+	// the subscription; the first one unsubscribes itself when it receives its first event
+	// (the registry changes under the publish that is going through it)
+	EarlyUnsub bool `json:"an_earlier_handler_unsubscribes_itself,omitempty"`
 }
 
 func (c hcase) String() string {
@@ -184,6 +194,12 @@ func (c hcase) String() string {
 	if c.HandlerPub {
 		s += " the subscription's handler publishes follow-up events"
 	}
+	if c.SubCancel > 0 {
+		s += fmt.Sprintf(" the first subscription's context is cancelled by its handler at event %d", c.SubCancel)
+	}
+	if c.EarlyUnsub {
+		s += " an earlier handler of the type unsubscribes itself"
+	}
 	if c.At != 0 {
 		s += fmt.Sprintf(" fault=%s@op%d", c.Fault, c.At)
 	}
@@ -201,6 +217,9 @@ type world struct {
 	hookPub bool
 	hdlrPub bool
 	pubd    map[int]bool // follow-up events already published (by any run)
+	subCancel  int
+	cancelled  bool
+	earlyUnsub bool
 	ob      *stores.Handle // the oracle's own store over the same medium: looking must not touch the store under test
 	hd2     *stores.Handle // the other process's store over the same medium
 	bus2    *eventbus.EventBus
@@ -287,6 +306,13 @@ func (w *world) newBus() {
 		defer func() { self = w.bus }()
 	}
 	w.bus = eventbus.New(opts...)
+	if w.earlyUnsub {
+		bus := w.bus
+		var h1 func(A)
+		h1 = func(A) { eventbus.Unsubscribe[A](bus, h1) }
+		eventbus.Subscribe(bus, h1)
+		eventbus.Subscribe(bus, func(A) {})
+	}
 }
 
 func (w *world) observeSaved(step string) {
@@ -313,9 +339,40 @@ func (w *world) observeSaved(step string) {
 
 func (w *world) subscribe(i int) {
 	w.subd[i] = true
-	err := eventbus.SubscribeWithReplay(bg, w.bus, ids[i], func(e A) {
+	// what the log holds of the subscribed type beyond this subscription's saved offset when
+	// the call is made (what lies before it is not this call's to replay)
+	var before []int
+	typeA := eventbus.EventType(A{})
+	raw0 := w.rawEvents()
+	savedPos := 0
+	if o, err := w.ob.Sub.LoadOffset(bg, ids[i]); err == nil {
+		if p := w.pos(o, raw0); p > 0 {
+			savedPos = p
+		}
+	}
+	for k, e := range raw0 {
+		if e.Type == typeA && k+1 > savedPos {
+			var a A
+			json.Unmarshal(e.Data, &a)
+			before = append(before, a.N)
+		}
+	}
+	seenHere := 0
+	first := w.subCancel > 0 && !w.cancelled
+	w.cancelled = w.cancelled || first
+	// the context of the subscription stays live for as long as the bus is used (it is the
+	// one the live handler works with) - except in the one call whose handler cancels it
+	ctx, cancel := bg, context.CancelFunc(func() {})
+	if first {
+		ctx, cancel = context.WithCancel(bg)
+	}
+	err := eventbus.SubscribeWithReplay(ctx, w.bus, ids[i], func(e A) {
 		if w.fs.dead {
 			return // the process is dead: nothing is observed any more
+		}
+		seenHere++
+		if first && seenHere == w.subCancel {
+			cancel()
 		}
 		w.got[i] = append(w.got[i], deliv{n: e.N, run: w.run, saved: w.maxSv[i]})
 		// positions saved so far are tracked eagerly so that "was its position
@@ -338,6 +395,24 @@ func (w *world) subscribe(i int) {
 		}
 	})
 	w.subEr[i] = err != nil
+	if err == nil && !w.fs.dead && w.fs.at == 0 && w.fs.kind == "" {
+		// (fault-free histories only) a SubscribeWithReplay that returns nil has replayed the log: every event of the type
+		// that was in it when the call was made has reached this subscription by now (in this
+		// run or an earlier one) - a replay that ended early must say so
+		have := map[int]bool{}
+		for _, d := range w.got[i] {
+			have[d.n] = true
+		}
+		for _, n := range before {
+			if !have[n] {
+				w.bad("SubscribeWithReplay(%s) returned nil although an event of its type that was in the log beyond its saved offset when it was called has never been delivered to it", ids[i])
+				break
+			}
+		}
+	}
+	if err != nil && first {
+		w.subd[i] = false // the call failed: no live subscription in this run, it may be made again
+	}
 }
 
 func (w *world) trackSaved() {
@@ -374,7 +449,7 @@ func runHistoryBody(c hcase) []string {
 		vrt.MachineryFault("%v", err)
 	}
 	defer ob.Close()
-	w := &world{med: med, hd: hd, ob: ob, timeout: c.Timeout, hookPub: c.HookPub, hdlrPub: c.HandlerPub, pubd: map[int]bool{}}
+	w := &world{med: med, hd: hd, ob: ob, timeout: c.Timeout, hookPub: c.HookPub, hdlrPub: c.HandlerPub, pubd: map[int]bool{}, subCancel: c.SubCancel, earlyUnsub: c.EarlyUnsub}
 	w.fs = &fstore{st: hd.Store, str: hd.Stream, sub: hd.Sub, at: c.At, kind: c.Fault}
 	w.newBus()
 	at := w.fs.at
@@ -473,6 +548,9 @@ func runHistoryBody(c hcase) []string {
 			}
 			cnt[d.n]++
 			if cnt[d.n] > 1 {
+				if c.SubCancel > 0 && d.saved < p {
+					continue // the replay was given up: what had not been saved may come again
+				}
 				if c.At == 0 {
 					w.bad("%s received a persisted event %d times with no crash and no failure", id, cnt[d.n])
 				} else if d.saved >= p {
@@ -480,7 +558,7 @@ func runHistoryBody(c hcase) []string {
 				}
 				continue
 			}
-			if p < last && c.At == 0 {
+			if p < last && c.At == 0 && c.SubCancel == 0 {
 				w.bad("%s received events out of log order", id)
 			}
 			if p > last {
@@ -960,6 +1038,27 @@ func run(c *h.Check) {
 				c.Count("nontrivial", 1)
 				for _, m := range runHistory(hc) {
 					c.Violate("history", sigOf(hc, m)+" (the handler publishes follow-up events)", hc.String()+"\n"+m, hc)
+				}
+			}
+		}
+		// a consumer that gives up part-way through the replay; an earlier handler of the type
+		// that unsubscribes itself while a publish goes through the list
+		if k != "durable" {
+			for _, ops := range histories(3) {
+				for _, v := range []hcase{{Kind: k, Ops: ops, Preload: 3, SubCancel: 1}, {Kind: k, Ops: ops, Preload: 3, SubCancel: 2}, {Kind: k, Ops: ops, EarlyUnsub: true}} {
+					idx++
+					if !c.Mine(idx) {
+						continue
+					}
+					c.Count("evaluations", 1)
+					c.Count("nontrivial", 1)
+					for _, m := range runHistory(v) {
+						sfx := " (an earlier handler unsubscribes itself)"
+						if v.SubCancel > 0 {
+							sfx = " (the subscription's context is cancelled during the replay)"
+						}
+						c.Violate("history", sigOf(v, m)+sfx, v.String()+"\n"+m, v)
+					}
 				}
 			}
 		}
